@@ -1,6 +1,6 @@
 (* C19 — Pipe registry: unique names, alphabetical paginated listing, idempotent ensure.
    Property theorems only; each is closed by `exact` of a lemma of proofs/PipeRegP.v. *)
-From LR Require Import lib.Base model.PipeReg proofs.PipeRegP.
+From LR Require Import lib.Base model.PipeReg proofs.PipeRegP proofs.PipeRegStartP proofs.PipeRegRaceP.
 From Coq Require Import Permutation Sorting.Sorted.
 
 (* names are unique in every registry reachable by any history of operations, for any map order *)
@@ -57,10 +57,20 @@ Proof.
 Qed.
 Print Assumptions C19_list.
 
-(* OFFSET/LIMIT pages of any size L > 0 walk the listing: their concatenation is the whole listing *)
-Theorem C19_pages : forall stms L n, 0 < L -> length stms <= n * L -> pages stms L 0 n = names stms.
-Proof. intros stms L n HL Hn. exact (pages_cover stms L HL n 0 Hn). Qed.
+(* OFFSET/LIMIT pages of any size L > 0 walk the listing: their concatenation is the whole listing (offsets below
+   2^63: `lim+offs` of cmdShowPipes is an int addition that wraps, modelled as such) *)
+Theorem C19_pages : forall stms L n, 0 < L -> (Z.of_nat (n * L) < 2 ^ 63)%Z -> length stms <= n * L ->
+  pages stms L 0 n = names stms.
+Proof. intros stms L n HL Hb Hn. exact (pages_cover stms L HL n 0 Hb Hn). Qed.
 Print Assumptions C19_pages.
+
+(* every limit that is at least the number of pipes - up to the largest int64, where lim+offs wraps to a negative
+   number - lists the whole rest of the listing from the offset, and the total is the number of pipes *)
+Theorem C19_rest_from_offset : forall stms lim off,
+  (0 <= off < 2 ^ 63)%Z -> (0 < lim < 2 ^ 63)%Z -> (Z.of_nat (length stms) <= lim)%Z ->
+  exists shown, show_pipes stms lim off = Some (Z.of_nat (length stms), shown, names (skipn (Z.to_nat off) stms)).
+Proof. exact show_pipes_rest. Qed.
+Print Assumptions C19_rest_from_offset.
 
 Theorem C19_describe : forall r n p, lookup r n = Some p -> describe r n = Some (p_from p, p_where p, dest_prefix ++ n).
 Proof. intros r n p H. unfold describe. rewrite H. reflexivity. Qed.
@@ -81,6 +91,79 @@ Theorem C19_create_race : forall K sched, 0 < K ->
   count_pc 2 s <= 1 /\ (all_done s -> count_pc 2 s = 1).
 Proof. exact race_exactly_one. Qed.
 Print Assumptions C19_create_race.
+
+(* --- pipes of the configuration (PipesConfig.EnsureAtStart), ensured at every start with changeOk = true --- *)
+
+(* the API's ensure is the changeOk = false instance of the one ensurePipe of the code *)
+Theorem C19_ensure_is_changeok_false : forall r p v, ensure_c false r p v = ensure r p v.
+Proof. exact ensure_c_false. Qed.
+Print Assumptions C19_ensure_is_changeok_false.
+
+(* a configured pipe with the definition it already has is returned unchanged; with another definition the stored
+   pipe is replaced by the configured one (appended: a new pipe), and no other name is touched *)
+Theorem C19_start_one : forall r p,
+  (forall q, lookup r (p_name p) = Some q -> same_def q p -> ensure_c true r p true = (r, Some q)) /\
+  (forall q, lookup r (p_name p) = Some q -> ~ same_def q p ->
+             ensure_c true r p true = (remove r (p_name p) ++ [p], Some p)) /\
+  (lookup r (p_name p) = None -> ensure_c true r p true = (r ++ [p], Some p)) /\
+  exists r', ensure_c true r p true = (r', Some p) /\ lookup r' (p_name p) = Some p /\
+             (forall m, m <> p_name p -> lookup r' m = lookup r m).
+Proof.
+  intros r p. split; [intros q H Hs; exact (ensure_c_same true r p true q H Hs)|].
+  split; [intros q H Hd; exact (ensure_c_replace r p q H Hd)|].
+  split; [exact (ensure_c_absent_valid true r p)|exact (ensure_c_true_valid r p)].
+Qed.
+Print Assumptions C19_start_one.
+
+(* the whole configuration (every entry compiles, names distinct), from ANY registry: the start succeeds, every
+   configured pipe is registered with exactly its configured definition, every pipe not named in the configuration is
+   untouched, names stay unique, and a second start with the same configuration changes nothing (idempotent) *)
+Theorem C19_start_config : forall cfg r, all_valid cfg -> NoDup (cfg_names cfg) -> NoDup (names r) ->
+  exists r', ensure_at_start r cfg = (r', true) /\
+     (forall p v, In (p, v) cfg -> lookup r' (p_name p) = Some p) /\
+     (forall m, ~ In m (cfg_names cfg) -> lookup r' m = lookup r m) /\
+     NoDup (names r') /\
+     ensure_at_start r' cfg = (r', true).
+Proof.
+  intros cfg r Hv Hnd Hr. destruct (ensure_at_start_ok cfg Hv Hnd r) as (r' & E & L & O).
+  exists r'. split; [exact E|]. split; [exact L|]. split; [exact O|]. split.
+  - pose proof (ensure_at_start_nodup cfg r Hr) as H. rewrite E in H. exact H.
+  - exact (ensure_at_start_idem cfg r r' Hv Hnd E).
+Qed.
+Print Assumptions C19_start_config.
+
+(* the first configured pipe whose conditions do not compile ends the start (Init fails); what the code does to a
+   stored pipe of that name is part of the statement: it is deleted first *)
+Theorem C19_start_invalid_entry : forall cfg1 p cfg2 r, all_valid cfg1 -> NoDup (cfg_names cfg1) ->
+  ~ In (p_name p) (cfg_names cfg1) -> (forall q, lookup r (p_name p) = Some q -> ~ same_def q p) ->
+  exists r', ensure_at_start r (cfg1 ++ (p, false) :: cfg2) = (r', false) /\ lookup r' (p_name p) = None.
+Proof. intros cfg1 p cfg2 r Hv Hnd Hn Hq. exact (ensure_at_start_invalid cfg1 p cfg2 Hv Hnd Hn r Hq). Qed.
+Print Assumptions C19_start_invalid_entry.
+
+(* non-vacuity of the start theorems: a stored pipe replaced, one kept, one added, one bystander *)
+Example C19_start_nonvacuous :
+  let mk n f := {| p_name := [n]; p_from := f; p_where := [] |} in
+  let r := [mk x61 []; mk x62 [x31]; mk x7a []] in
+  let cfg := [(mk x61 [x32], true); (mk x62 [x31], true); (mk x63 [], true)] in
+  ensure_at_start r cfg = ([mk x62 [x31]; mk x7a []; mk x61 [x32]; mk x63 []], true) /\
+  ensure_at_start r [(mk x61 [x32], true); (mk x62 [x39], false)] = ([mk x7a []; mk x61 [x32]], false).
+Proof. vm_compute. split; reflexivity. Qed.
+
+(* K concurrent ensure calls for one new name with ONE definition, every interleaving of their lock-protected steps
+   (GetPipe; CreatePipe's check; CreatePipe's check-and-insert; up to 3 rounds): no call fails, and when all have finished
+   all K have succeeded and the pipe exists - "ensuring a pipe with the definition it already has returns it" also
+   for the losers of the creation race *)
+Theorem C19_ensure_race : forall K sched,
+  let s := erun true sched (einit K) in
+  (forall pc, In pc (e_pc s) -> pc <> EFail) /\
+  ((forall pc, In pc (e_pc s) -> epc_done pc = true) -> count_ok s = K /\ (0 < K -> e_present s = true)).
+Proof. exact ensure_race_all_succeed. Qed.
+Print Assumptions C19_ensure_race.
+
+(* a loop that returns CreatePipe's error instead of going round again fails a loser although the definition is the same *)
+Theorem C19_ensure_race_no_retry_refuted : exists sched, In EFail (e_pc (erun false sched (einit 2))).
+Proof. exact ensure_race_no_retry_fails. Qed.
+Print Assumptions C19_ensure_race_no_retry_refuted.
 
 (* non-vacuity: a reachable three-pipe registry listed from a non-sorted map order *)
 Example C19_nonvacuous :
